@@ -1,7 +1,7 @@
 /-
   Model of the scheme layer that all ciphertext-level properties share (src/encryptor.rs, src/util/scaling_variant.rs):
   ciphertext objects, the secret-key power array, `dot_product_ct_sk_array`, the three decryption routines,
-  `invariant_noise_budget`, BFV `multiply_add_plain`, the BGV plaintext lift.
+  `invariant_noise_budget`, BFV `multiply_add_plain` / `multiply_sub_plain`, the BGV plaintext lift.
 
   A level is described by its moduli (a prefix of the key-level moduli); the per-level tools (`RNSTool`, NTT tables)
   are rebuilt from the moduli by the models of C09/C10.
@@ -152,6 +152,29 @@ def multiplyAddPlain (l : Level) (coeffDivPlain : Array MulOperand) (qModT upper
         let fix := ((n0 + B64 * n1) / l.t.value) % B64
         let sc ← mulOperandAddMod m (coeffDivPlain.getD j default) fix (l.q j)
         let v ← addMod (comp.getD i 0) sc (l.q j)
+        pure (c.push v)
+      else pure (c.push (comp.getD i 0))) #[]
+    pure (acc.push comp')) #[]
+
+/-- `multiply_sub_plain`: the same scaled and rounded value Δ(m), SUBTRACTED from `dest` (`sub_plain` of the evaluator for BFV).
+    The code has no `assert!` on the plaintext length; a plaintext longer than the degree ends in an out-of-bounds panic there
+    (for a non-empty modulus chain), here in a refusal. -/
+def multiplySubPlain (l : Level) (coeffDivPlain : Array MulOperand) (qModT upperHalf : Nat)
+    (plain : Poly) (dest : RnsPoly) : R RnsPoly := do
+  if plain.size > l.n then .error .refused else
+  (List.range l.size).foldlM (fun acc j => do
+    let comp := dest.getD j #[]
+    let comp' ← (List.range l.n).foldlM (fun (c : Array Nat) i =>
+      if i < plain.size then do
+        let m := plain.getD i 0
+        let lo := mulLo m qModT
+        let hi := mulHi m qModT
+        let (n0, carry) := addU64 lo upperHalf
+        let n1 ← ckAdd hi carry
+        if l.t.value = 0 then .error .other else
+        let fix := ((n0 + B64 * n1) / l.t.value) % B64
+        let sc ← mulOperandAddMod m (coeffDivPlain.getD j default) fix (l.q j)
+        let v ← subMod (comp.getD i 0) sc (l.q j)
         pure (c.push v)
       else pure (c.push (comp.getD i 0))) #[]
     pure (acc.push comp')) #[]
